@@ -194,8 +194,28 @@ K({
     "assumptions": [
         "K5: unwinding after a panic in the folder runs the same drop glue (Drop for VecMappedInPlace / Box<MaybeUninit<U>>) as an early return; Kani itself aborts on panic, so the panic path is checked through the guard's contract (k5_guard_drop_*) and the Err path",
         "K5: Vec::from_raw_parts / Box::from_raw / ptr::read / ptr::write as modelled by Kani's std",
-        "K5: memory leaks are checked through the drop counters (every element) and the guard's single from_raw_parts; CBMC's --memory-leak-check is not used",
+        "K5: element leaks are checked through the drop counters (every element); leaks of the buffer itself are unit K5L's (CBMC --memory-leak-check)",
     ],
+    "trusted": ["alloc::vec / alloc::boxed as compiled by Kani"],
+})
+
+# -------------------------------------------------------------------------- K5L
+K({
+    "id": "K5L",
+    "title": "ir_in_place, storage leaks: fallible_map_box / fallible_map_vec free the buffer on every path (chalk-ir/src/fold/in_place.rs)",
+    "crate": "chalk-ir",
+    "complete": False,
+    "bound": {"quick": "box: loop-free; vector length <= 2 (unwind 4)", "thorough": "box: loop-free; vector length <= 2 (unwind 4)"},
+    "mods": [{"into": INPLACE, "harness": "chalk_ir/k5l_leaks.rs", "name": "verif_k5l"}],
+    "kani_args": ["--cbmc-args", "--memory-leak-check"],
+    "group": "leak",
+    "targets": [
+        {"file": INPLACE, "fn": "fallible_map_box", "path": "fold::in_place::fallible_map_box",
+         "clauses": ["whether the folder succeeds or fails, every allocation made is freed by the time the result has been dropped (CBMC --memory-leak-check)"]},
+        {"file": INPLACE, "fn": "fallible_map_vec", "path": "fold::in_place::fallible_map_vec",
+         "clauses": ["whether the folder succeeds or fails (at any position), the vector's buffer is freed by the time the result has been dropped"]},
+    ],
+    "assumptions": ["K5L: CBMC's dynamic-memory leak check (`__CPROVER_memory_leak == NULL` at exit), enabled through Kani's unstable --cbmc-args"],
     "trusted": ["alloc::vec / alloc::boxed as compiled by Kani"],
 })
 
